@@ -109,6 +109,8 @@ type World struct {
 	Chain    types.ChainID
 	InfraErr error
 	lastHash []byte
+	prevCommitted []byte
+	LastCommitted int64 // height of the last block the main node committed
 	ReqLog   []BlockReq // executed block requests (for twins)
 	ResLog   []BlockRes
 	KeepLogs bool
@@ -305,7 +307,9 @@ func (w *World) Step(bo *BlockOp) bool {
 	if string(hash) != string(w.lastHash) {
 		w.Stats.Hashes++
 	}
+	w.prevCommitted = w.lastHash
 	w.lastHash = hash
+	w.LastCommitted = h
 	w.Stats.Blocks++
 	if err := w.TM.EndBlock(end.ValidatorUpdates); err != nil {
 		w.Report("C17", "tendermint-accepts-updates", "rejected-update", fmt.Sprintf("validator updates at height %d would be refused by Tendermint: %v; updates=%v", h, err, fmtUpdates(end.ValidatorUpdates)), h)
